@@ -12,6 +12,7 @@ CONSTANTS
   MaxSteps = 7
   AutoPoll = FALSE
   AllowPark = TRUE
+  EmitAll = TRUE
 SPECIFICATION GSpec
 INVARIANTS GenSafe Emit
 VIEW CoverView
